@@ -11,7 +11,7 @@
    yet (they need the Coq `Spec.decode` of C04, which is another file). *)
 From Coq Require Import List NArith String.
 From Wbxml Require Import Model.Codec Model.TablesDefs Model.EncWbxml Model.TreeNorm Proofs.EncWbxmlProofs Proofs.EncWbxmlSerialize Proofs.EncWbxmlDenote Proofs.EncWbxmlAbs Proofs.EncWbxmlStrict2 Proofs.EncWbxmlDenote2
-     Model.EncWbxmlEvents Proofs.EncWbxmlTblOk Proofs.EncWbxmlDenote3.
+     Model.EncWbxmlEvents Proofs.EncWbxmlTblOk Proofs.EncWbxmlDenote3 Proofs.EncWbxmlAbs4 Proofs.EncWbxmlDenote4 Proofs.EncWbxmlAbs5 Model.EncWbxmlTables Proofs.EncWbxmlDenote5 Proofs.EncWbxmlCanon Proofs.EncWbxmlDenoteWv.
 From Wbxml Require Model.Parser Model.Spec.
 Import ListNotations.
 Local Open Scope N_scope.
@@ -365,3 +365,215 @@ Proof.
   eexists. eexists. split; [vm_compute; reflexivity|]. split; [vm_compute; reflexivity|].
   split; [vm_compute; discriminate|vm_compute; reflexivity].
 Qed.
+
+(* BINARY-FLAGGED ELEMENTS (WBXML_TAG_OPTION_BINARY: the ActiveSync / AirSync byte arrays; the shape of the seeded changes
+   C06_r31 / C03_r32).  The fragment of C06_strict_decoding_yields_normalised_source_strtbl_partial plus elements whose tag
+   is binary-flagged: their text is written as ONE OPAQUE item with the node's octets as they are (any octets < 256, NUL
+   included, fewer than 2^32), NOT trimmed, NOT dropped when it is blank, never cut against the tables; the decoder reports
+   exactly these octets as one character event.  norm4 / events4 (Proofs/EncWbxmlDenote4.v) are TreeNorm.norm / events3 with
+   the parent's flag: under a binary-flagged element a text node is left alone.  String table on or off: a byte array that
+   occurs twice is put into the table by wbxml_strtbl_initialize but is never referenced (an entry with a NUL never matches
+   a C string: find_name_okb), and references resolve for entries of octets 1..255 (the others need not).
+   PARTIAL only in: languages without typed values and extension tokens; no CDATA, PI, embedded tree. *)
+Theorem C06_strict_decoding_yields_normalised_source_binary_partial : forall tblb TBL L o tag attrs ch bs,
+  let e := enc_env (to_blang L) o in
+  plain_env e = true -> vals_ok L = true -> l_exts L = None ->
+  tree_ok4 L false 0 (NElt tag attrs ch) = true ->
+  find (fun x => l_id x =? l_id L) TBL = Some L ->
+  o_version o < 4 -> header_public_id e < 4294967296 -> header_public_id e <> 0 ->
+  (match header_pid e with Some p => okb p = true | None => True end) ->
+  len bs < 4294967296 ->
+  enc_wbxml tblb (to_blang L) o [NElt tag attrs ch] = EOk bs ->
+  exists d evs, bs = Spec.serialize d /\ Spec.strict_doc d = true /\
+            Spec.denote_with TBL (Some L) d = Some evs /\ Spec.decode_lang TBL (l_id L) bs = Some evs /\
+            merge_chars evs = merge_chars (doc_events4 L e (o_keep_ws o) (NElt tag attrs ch)).
+Proof. exact strict_decode_of_encoding4. Qed.
+Print Assumptions C06_strict_decoding_yields_normalised_source_binary_partial.
+
+(* the former fragment is inside this one *)
+Theorem C06_binary_fragment_contains_strtbl_fragment : forall L n d, tree_ok3 L d n = true -> tree_ok4 L false d n = true.
+Proof. exact ok3_ok4. Qed.
+Print Assumptions C06_binary_fragment_contains_strtbl_fragment.
+
+(* grammar level for the same fragment: encoder succeeds => bytes = serialization of the abstract document *)
+Theorem C06_output_is_serialize_binary_partial : forall tbl l o tag attrs ch bs,
+  let e := enc_env l o in
+  plain_env e = true -> frag4_node e false (NElt tag attrs ch) = true ->
+  enc_wbxml tbl l o [NElt tag attrs ch] = EOk bs ->
+  exists st' root, enc_body tbl l o [NElt tag attrs ch] = EOk (flat_map Spec.ser_item [root], st') /\
+    abs_node4 e None (NElt tag attrs ch) (start_state e [NElt tag attrs ch]) = Some ([root], st') /\
+    (header_len_ok e st' -> bs = Spec.serialize (abs_doc2 e st' root)).
+Proof. exact enc_wbxml_serialize4. Qed.
+Print Assumptions C06_output_is_serialize_binary_partial.
+
+(* the shape of seeded/C06_r31: <p><m>CR LF</m>  </p> with m binary-flagged, white space trimmed / dropped elsewhere: the
+   blank byte array is kept as content of <m> (content bit, OPAQUE 02 0d 0a, END), the blank text of <p> is dropped *)
+Example C06_binary_blank_payload_example :
+  let L := mk_lang 9996 4 None None None (Some [mk_tag "m"%string 0 5 1; mk_tag "p"%string 0 6 0]) None None None None in
+  let o := mk_opts 3 true false false in
+  let t := NElt (TagTok 0 6 0 [112]) [] [NElt (TagTok 0 5 1 [109]) [] [NText [13; 10]]; NText [32; 32]] in
+  plain_env (enc_env (to_blang L) o) = true /\ tree_ok4 L false 0 t = true /\
+  enc_wbxml [] (to_blang L) o [t] = EOk [3; 4; 106; 0; 70; 69; 195; 2; 13; 10; 1; 1] /\
+  Spec.decode_lang [L] 9996 [3; 4; 106; 0; 70; 69; 195; 2; 13; 10; 1; 1]
+    = Some [Parser.EvStartDoc 106 9996; Parser.EvStartElt (Parser.TagTok 0 6 [112]) []; Parser.EvStartElt (Parser.TagTok 0 5 [109]) [];
+            Parser.EvChars [13; 10]; Parser.EvEndElt (Parser.TagTok 0 5 [109]); Parser.EvEndElt (Parser.TagTok 0 6 [112]); Parser.EvEndDoc] /\
+  doc_events4 L (enc_env (to_blang L) o) false t
+    = [Parser.EvStartDoc 106 9996; Parser.EvStartElt (Parser.TagTok 0 6 [112]) []; Parser.EvStartElt (Parser.TagTok 0 5 [109]) [];
+       Parser.EvChars [13; 10]; Parser.EvEndElt (Parser.TagTok 0 5 [109]); Parser.EvEndElt (Parser.TagTok 0 6 [112]); Parser.EvEndDoc].
+Proof. cbv zeta. repeat split; vm_compute; reflexivity. Qed.
+
+(* GRAMMAR LEVEL, EVERY LANGUAGE, EVERY NODE KIND (the first half of the full statement, no longer partial): whenever the
+   conversion of a tree with an element root succeeds and the output is shorter than 2^32 octets (so that no OPAQUE or
+   table length wraps), the bytes are Spec.serialize of an abstract document that is Spec.strict_doc (table NUL-terminated,
+   every STR_T / LITERAL / public-id index is the first octet of a table entry, no switchPage before an extension).
+   abs_node5 (Proofs/EncWbxmlAbs5.v) follows ALL branches of the encoder: SI / EMN %Datetime attributes and the OTA icon
+   (OPAQUE), Wireless-Village integers / dates (OPAQUE or inline) and extension tokens (EXT_T_0), DRMREL key values
+   (OPAQUE), the SyncML MIME rewrite, the generic splitting against value tokens and string table, binary-flagged
+   elements (OPAQUE), CDATA sections (one OPAQUE with the collected text), embedded trees (one OPAQUE holding the
+   embedded document), literal tags / attributes.  Hypotheses: token tags of the tree and of the language's tag table are
+   0 or 5..63 (true of every table: C06_all_tables_have_wellformed_tag_tokens), nothing else. *)
+Theorem C06_output_is_serialize_of_strict_doc : forall tbl l o tag attrs ch bs,
+  let e := enc_env l o in
+  tag_tbl_ok e = true -> frag5_node (NElt tag attrs ch) = true ->
+  enc_wbxml tbl l o [NElt tag attrs ch] = EOk bs -> len bs < 4294967296 ->
+  exists body st' root,
+    enc_body tbl l o [NElt tag attrs ch] = EOk (body, st') /\
+    abs_node5 tbl e None (NElt tag attrs ch) (start_state e [NElt tag attrs ch]) = Some ([root], st') /\
+    bs = Spec.serialize (abs_doc2 e st' root) /\ Spec.strict_doc (abs_doc2 e st' root) = true.
+Proof. exact enc_wbxml_full. Qed.
+Print Assumptions C06_output_is_serialize_of_strict_doc.
+
+Theorem C06_all_tables_have_wellformed_tag_tokens : forall o,
+  forallb (fun l => tag_tbl_ok (enc_env l o)) main_btable = true.
+Proof. exact all_tables_tag_ok. Qed.
+Print Assumptions C06_all_tables_have_wellformed_tag_tokens.
+
+(* TYPED VALUES, first class: the languages WITHOUT TYPED CONTENT — the plain ones plus SI 1.0 and EMN 1.0, whose %Datetime
+   attributes (SI created / si-expires, EMN timestamp) the encoder writes as an OPAQUE holding the BCD digits of the value
+   with the trailing zero octets removed, and the decoder prints as ISO 8601 text.  The decoded events are the events of
+   the normalised tree (events5: names, attributes in order, text; byte arrays of binary-flagged elements as they are)
+   in which the value of every %Datetime attribute is replaced by canon_dt (value) = Spec.spec_datetime (payload of the
+   value): "typed date-time values are compared by the instant they denote".  canon_dt is a normal form
+   (C06_canon_datetime_idempotent), e.g. "1999-06-25" and "1999-06-25T00:00:00Z" both become "1999-06-25T00:00:00Z"
+   (examples below).  Everything else as in the _binary_partial theorem (string table on / off, literal names, byte
+   arrays), modulo merge_chars on text.
+   Hypotheses: class5 (not WV, DRMREL, SyncML, OTA settings), tree_ok5 with aok_dt (attributes as attr_ok3; a %Datetime
+   attribute has a value on which canon_dt is defined, i.e. 4 to 7 BCD octets after packing, or none) and tok_plain.
+   Proof: ONE tree induction for any class (Proofs/EncWbxmlDenote5.v: all_node_den5, over the total abstraction abs_node5
+   of the full grammar theorem), instantiated with the attribute and text lemmas of this class. *)
+Theorem C06_strict_decoding_yields_normalised_source_typed_datetime_partial : forall tblb TBL L o tag attrs ch bs,
+  let e := enc_env (to_blang L) o in
+  class5 e = true -> vals_ok L = true -> l_exts L = None -> tag_tbl_ok e = true ->
+  tree_ok5 L (aok_dt L) tok_plain 0 true None (NElt tag attrs ch) = true ->
+  find (fun x => l_id x =? l_id L) TBL = Some L ->
+  o_version o < 4 -> header_public_id e < 4294967296 -> header_public_id e <> 0 ->
+  (match header_pid e with Some p => okb p = true | None => True end) ->
+  len bs < 4294967296 ->
+  enc_wbxml tblb (to_blang L) o [NElt tag attrs ch] = EOk bs ->
+  exists d evs, bs = Spec.serialize d /\ Spec.strict_doc d = true /\
+            Spec.denote_with TBL (Some L) d = Some evs /\ Spec.decode_lang TBL (l_id L) bs = Some evs /\
+            merge_chars evs = merge_chars (doc_events5 L e (o_keep_ws o) (NElt tag attrs ch)).
+Proof. exact strict_decode_of_encoding5. Qed.
+Print Assumptions C06_strict_decoding_yields_normalised_source_typed_datetime_partial.
+
+(* canon_dt is a normal form: the canonical text of a value is its own canonical text *)
+Theorem C06_canon_datetime_idempotent : forall v o, canon_dt v = Some o -> canon_dt o = Some o.
+Proof. exact canon_dt_idem. Qed.
+Print Assumptions C06_canon_datetime_idempotent.
+
+(* where it matters: a date without time, a date-time whose time is all zeros (the zero octets are not written), a
+   canonical text; and a value that is no date-time for the decoder (fewer than 4 octets) *)
+Example C06_canon_datetime_examples :
+  canon_dt (Parser.B "1999-06-25") = Some (Parser.B "1999-06-25T00:00:00Z") /\
+  canon_dt (Parser.B "1999-06-25T00:00:00Z") = Some (Parser.B "1999-06-25T00:00:00Z") /\
+  dt_payload (Parser.B "1999-06-25T00:00:00Z") = Some [25; 153; 6; 37] /\
+  canon_dt (Parser.B "1999-04-30T06:40:00Z") = Some (Parser.B "1999-04-30T06:40:00Z") /\
+  canon_dt (Parser.B "19990430T0640") = Some (Parser.B "1999-04-30T06:40:00Z") /\
+  canon_dt (Parser.B "1999") = None.
+Proof. repeat split; vm_compute; reflexivity. Qed.
+
+(* an SI document: created="1999-06-25" is written 0A C3 04 19 99 06 25 and decoded as "1999-06-25T00:00:00Z" *)
+Example C06_si_datetime_example :
+  let L := mk_lang 1301 5 None None None (Some [mk_tag "si"%string 0 5 0]) None
+                   (Some [mk_attr "created"%string None 0 10; mk_attr "class"%string None 0 17]) None None in
+  let o := mk_opts 3 false false false in
+  let t := NElt (TagTok 0 5 0 (Parser.B "si")) [mk_at (AttrTok 0 10 (Parser.B "created") None) (Parser.B "1999-06-25");
+                                                  mk_at (AttrTok 0 17 (Parser.B "class") None) (Parser.B "x")] [] in
+  class5 (enc_env (to_blang L) o) = true /\ tag_tbl_ok (enc_env (to_blang L) o) = true /\
+  tree_ok5 L (aok_dt L) tok_plain 0 true None t = true /\
+  enc_wbxml [] (to_blang L) o [t] = EOk [3; 5; 106; 0; 133; 10; 195; 4; 25; 153; 6; 37; 17; 3; 120; 0; 1] /\
+  Spec.decode_lang [L] 1301 [3; 5; 106; 0; 133; 10; 195; 4; 25; 153; 6; 37; 17; 3; 120; 0; 1]
+    = Some (doc_events5 L (enc_env (to_blang L) o) false t) /\
+  doc_events5 L (enc_env (to_blang L) o) false t
+    = [Parser.EvStartDoc 106 1301;
+       Parser.EvStartElt (Parser.TagTok 0 5 (Parser.B "si")) [(Parser.AttrTok 0 10 (Parser.B "created"), Parser.B "1999-06-25T00:00:00Z");
+                                                               (Parser.AttrTok 0 17 (Parser.B "class"), Parser.B "x")];
+       Parser.EvEndElt (Parser.TagTok 0 5 (Parser.B "si")); Parser.EvEndDoc].
+Proof. cbv zeta. repeat split; vm_compute; reflexivity. Qed.
+
+(* TYPED VALUES, second class: WIRELESS VILLAGE (WV CSP 1.1 / 1.2), typed CONTENT.  The text that is the FIRST child of an
+   element the encoder's switch classifies as integer / date-and-time is written as OPAQUE (minimal big-endian integer
+   of atol / strtol(16); six packed octets) and printed by the decoder in canonical form: the decoded text is
+   canon_wv_int (text) = Spec.spec_wv_integer (payload) ("0200" -> "200", "0x10" -> "16", " 7" -> "7") resp.
+   canon_wv_date (text) ("20011019T095031" -> "20011019T095031Z"); a date-time containing '-', '+', ':' or ending in 'Z'
+   is written inline as it is.  A text that is the name of an extension token is written as EXT_T_0 and printed as that
+   name (exts_ok: the row is found again under its 8-bit token).  All other text is ordinary (string table, merge_chars).
+   The encoder's switch is INCLUDED in the decoder's lists of typed elements (wv_switch_spec: the decoder knows three more
+   integer elements, which the encoder writes as text - harmless, the typed rule only applies to OPAQUE).
+   PARTIAL: elements carry no attributes in this instance (aok_none); element and text nodes only. *)
+Theorem C06_strict_decoding_yields_normalised_source_typed_wv_partial : forall tblb TBL L o tag attrs ch bs,
+  let e := enc_env (to_blang L) o in
+  is_wv (e_lang e) = true -> exts_ok L = true -> tag_tbl_ok e = true ->
+  tree_ok5 L aok_none (tok_wv (o_keep_ws o)) 0 true None (NElt tag attrs ch) = true ->
+  find (fun x => l_id x =? l_id L) TBL = Some L ->
+  o_version o < 4 -> header_public_id e < 4294967296 -> header_public_id e <> 0 ->
+  (match header_pid e with Some p => okb p = true | None => True end) ->
+  len bs < 4294967296 ->
+  enc_wbxml tblb (to_blang L) o [NElt tag attrs ch] = EOk bs ->
+  exists d evs, bs = Spec.serialize d /\ Spec.strict_doc d = true /\
+            Spec.denote_with TBL (Some L) d = Some evs /\ Spec.decode_lang TBL (l_id L) bs = Some evs /\
+            merge_chars evs = merge_chars (doc_events_wv L e (o_keep_ws o) (NElt tag attrs ch)).
+Proof. exact strict_decode_of_encoding_wv. Qed.
+Print Assumptions C06_strict_decoding_yields_normalised_source_typed_wv_partial.
+
+Theorem C06_wv_encoder_switch_within_decoder_lists : forall p t,
+  ((wv_data_type p t =? 2) = true -> Spec.pair_in (p, t) Spec.wv_int_elts = true) /\
+  ((wv_data_type p t =? 3) = true -> Spec.pair_in (p, t) Spec.wv_date_elts = true /\ Spec.pair_in (p, t) Spec.wv_int_elts = false).
+Proof. exact wv_switch_spec. Qed.
+Print Assumptions C06_wv_encoder_switch_within_decoder_lists.
+
+(* where it matters: <R><C>0200</C><D>20011019T095031</D></R> with C an integer element (page 0, token 0x0B) and D a
+   date element (page 0, token 0x11): decoded as "200" and "20011019T095031Z" *)
+Example C06_wv_typed_content_example :
+  let L := mk_lang 2301 16 None None None (Some [mk_tag "R"%string 0 5 0; mk_tag "C"%string 0 11 0; mk_tag "D"%string 0 17 0]) None None None (Some []) in
+  let o := mk_opts 1 false false false in
+  let t := NElt (TagTok 0 5 0 (Parser.B "R")) []
+                [NElt (TagTok 0 11 0 (Parser.B "C")) [] [NText (Parser.B "0200")];
+                 NElt (TagTok 0 17 0 (Parser.B "D")) [] [NText (Parser.B "20011019T095031")]] in
+  is_wv (to_blang L) = true /\ exts_ok L = true /\ tree_ok5 L aok_none (tok_wv false) 0 true None t = true /\
+  canon_wv_int (Parser.B "0200") = Some (Parser.B "200") /\ canon_wv_int (Parser.B "0x10") = Some (Parser.B "16") /\
+  exists bs, enc_wbxml [] (to_blang L) o [t] = EOk bs /\
+    Spec.decode_lang [L] 2301 bs = Some (doc_events_wv L (enc_env (to_blang L) o) false t) /\
+    doc_events_wv L (enc_env (to_blang L) o) false t
+      = [Parser.EvStartDoc 106 2301; Parser.EvStartElt (Parser.TagTok 0 5 (Parser.B "R")) [];
+         Parser.EvStartElt (Parser.TagTok 0 11 (Parser.B "C")) []; Parser.EvChars (Parser.B "200"); Parser.EvEndElt (Parser.TagTok 0 11 (Parser.B "C"));
+         Parser.EvStartElt (Parser.TagTok 0 17 (Parser.B "D")) []; Parser.EvChars (Parser.B "20011019T095031Z"); Parser.EvEndElt (Parser.TagTok 0 17 (Parser.B "D"));
+         Parser.EvEndElt (Parser.TagTok 0 5 (Parser.B "R")); Parser.EvEndDoc].
+Proof.
+  cbv zeta. split; [vm_compute; reflexivity|]. split; [vm_compute; reflexivity|]. split; [vm_compute; reflexivity|].
+  split; [vm_compute; reflexivity|]. split; [vm_compute; reflexivity|].
+  eexists. split; [vm_compute; reflexivity|]. split; vm_compute; reflexivity.
+Qed.
+
+(* (d) EMBEDDED TREES, grammar level: the item that stands for an embedded tree (SyncML <Data> holding a DevInf / DM DDF
+   document) is ONE OPAQUE whose octets are the output of the same encoder on the embedded tree with the embedded language
+   (same version / string-table / white-space options, never anonymous: embedded_opts), and that output — when shorter
+   than 2^32 octets — is itself Spec.serialize of a strict document with its own header and string table. *)
+Theorem C06_embedded_document_is_strict_serialization : forall tbl e par lid l' tag attrs ch st items st',
+  e_ignore_empty e = e_remove_blanks e -> find_lang tbl lid = Some l' ->
+  tag_tbl_ok (enc_env l' (embedded_opts e)) = true -> frag5_node (NElt tag attrs ch) = true ->
+  abs_node5 tbl e par (NTree lid [NElt tag attrs ch]) st = Some (items, st') ->
+  exists doc, items = [Spec.WItemStr (Spec.WOpaque doc)] /\ enc_wbxml tbl l' (embedded_opts e) [NElt tag attrs ch] = EOk doc /\
+    (len doc < 4294967296 -> exists d', doc = Spec.serialize d' /\ Spec.strict_doc d' = true).
+Proof. exact embedded_tree_is_document. Qed.
+Print Assumptions C06_embedded_document_is_strict_serialization.
